@@ -53,6 +53,7 @@ StringDictionaryHHTFC::StringDictionaryHHTFC(IteratorDictString *it,
     this->bucketsize = 2;
   } else
     this->bucketsize = bucketsize;
+  bucketsize = this->bucketsize;
 
   // 1) Bulding the Front-Coding representation
   StringDictionaryPFC *dict = new StringDictionaryPFC(it, this->bucketsize);
